@@ -69,6 +69,13 @@ def _uniform_scn(rng, mname=None):
         u = mach * np.sqrt(gam * p / rho)
         prim = [np.full(n, rho), np.full(n, u), np.full(n, p)]
         bcL, bcR, kind = _euler_bcs(rng, rho, u, p, gam)
+        types = kind.replace("(reversed)", "").split("-")
+        # subsonic conditions on a supersonic stream (and vice versa) keep the state a fixed point of the operator but make the
+        # initial-boundary-value problem ill-posed: round-off grows exponentially over several steps (thorough-tier witness)
+        if len(types) == 2 and (((abs(mach) > 1) and any(t.startswith(("insub", "outsub")) for t in types)) or ((abs(mach) < 1) and any(t in ("insup", "outsup") for t in types))):
+            desc_illposed = True
+        else:
+            desc_illposed = False
         # conditions that recover a Mach number from a total-to-static pressure ratio lose 1/M^2 (and sqrt(eps) at M = 0)
         if any(t in kind.replace("(reversed)", "").split("-") for t in ("insub", "insub_cbc", "outsub_qtot")):
             cond = 1.0 + 1.0 / mach ** 2 if mach != 0 else float("inf")
@@ -77,7 +84,7 @@ def _uniform_scn(rng, mname=None):
     disc = md.fvm(model, mesh, num, numflux=flux, bcL=bcL, bcR=bcR)
     f = gen.fdata_prim(model, mesh, prim)
     desc = {"model": mname, "params": mparams, "flux": flux, "recon": rname, "mesh": mdesc, "bcL": bcL, "bcR": bcR,
-            "state": [float(x[0]) for x in prim]}
+            "state": [float(x[0]) for x in prim], "ill_posed_boundary_pair": bool(locals().get("desc_illposed", False))}
     return model, mesh, disc, f, desc, fs, qs, cond, kind
 
 
@@ -161,6 +168,8 @@ def solve1d(ctx, rng, idx):
     dtlocal = bool(rng.random() < 0.4)
     cfl = float(rng.uniform(0.05, 0.9 if iname in gen.EXPLICIT else 3.0))
     nstep = int(rng.integers(1, 8))
+    if desc.get("ill_posed_boundary_pair"):
+        nstep = 1
     if cond > 1.0:
         # total-pressure boundaries amplify a perturbation by up to ~1/M^2 per step (reflection coefficient of the
         # condition itself): bound the compounded conditioning by 1e5 so that round-off cannot reach the tolerance
